@@ -277,9 +277,27 @@ token822_alloc *addr;
    addr->t[i] = plusdomain.t[shift - 1 - i];
 }
 
+/* comments next to the brackets, as in <(c)@r:a@b> or <a@b+ (c)>, hide the tokens the rules below look at */
+void rwnocomment(addr)
+token822_alloc *addr;
+{
+ int i;
+ int shift;
+ while (addr->len && (addr->t[addr->len - 1].type == TOKEN822_COMMENT))
+   --addr->len;
+ for (shift = 0;shift < addr->len;++shift)
+   if (addr->t[shift].type != TOKEN822_COMMENT)
+     break;
+ if (!shift) return;
+ addr->len -= shift;
+ for (i = 0;i < addr->len;++i)
+   addr->t[i] = addr->t[i + shift];
+}
+
 void rwgeneric(addr)
 token822_alloc *addr;
 {
+ rwnocomment(addr);
  if (!addr->len) return; /* don't rewrite <> */
  if (addr->len >= 2)
    if (addr->t[1].type == TOKEN822_AT)
